@@ -279,12 +279,21 @@ def rule_replace(ctx, cd):
     for p in cd.paths("cpp", "des", "_deserialize_variable_length_array"):
         n += 1
         text = cd.text("cpp", p)
-        ref = p.name_of("reference")
+        ref = p.name_of(cd.macro("cpp", "des", "_deserialize_variable_length_array").args[1].name)
         app = [m.start() for m in re.finditer(rf"{ref}\.(push_back|emplace_back|insert)\(", text)] if ref else []
         clr = [m.start() for m in re.finditer(rf"{ref}\.(clear\(\)|resize\(0U?\)|assign\()|{ref} = ", text)] if ref else []
         ok = (not app) or (bool(clr) and min(clr) < min(app))
         ctx.ob(R, t.rel, "cpp: destination array is emptied before elements are appended", ok,
                "" if ok else "elements are appended to whatever the destination already held: decoding into a reused object yields old + new elements")
+        if app and clr:
+            # ... on every run-time path: the emptying statement is not nested inside an emitted conditional that the appending
+            # loop is outside of (an `if (size > 0)` around clear() keeps the old elements when the new array is empty)
+            depth = lambda pos: text.count("{", 0, pos) - text.count("}", 0, pos)   # noqa: E731
+            loops = [m.start() for m in re.finditer(r"\bfor ?\(", text) if m.start() < min(app)]
+            anchor = max(loops) if loops else min(app)
+            okd = depth(min(clr)) <= depth(anchor)
+            ctx.ob(R, t.rel, "cpp: the destination is emptied unconditionally (not only when the new array is non-empty)", okd,
+                   "" if okd else "the emptying statement sits inside an emitted conditional: decoding an empty array into a reused object keeps its old elements")
     ctx.floor(R, n, 1)
     tc = cd.tmpl("c", "des")
     for p in cd.paths("c", "des", "_deserialize_variable_length_array")[:4]:
